@@ -76,6 +76,11 @@ def jobs_for(pid, rep):
 
     def add(ops, ai, opts, battery=()):
         nonlocal n
+        if n % 4 == 3 and "theme" not in opts and pid != "C04":
+            # a quarter of the histories use value tables drawn at random (themes._random_tables)
+            opts = dict(opts, theme="random:%d" % (rep.seed * 100000 + n))
+            gen.deregex(ops)
+            battery = gen.deregex(list(battery))
         jobs.append(("%s-%d" % (pid, n), "csv", ai, ops, list(battery), core.NTK, core.NFK, opts))
         n += 1
 
@@ -115,6 +120,16 @@ def jobs_for(pid, rep):
         for i in range(24 if thorough else 6):
             g = gen.Gen(rng.randrange(1 << 30), focus={"insert": 6, "remove": 4, "update": 4, "drop": 1, "repeat": 0.3}, handles=0.1)
             add(g.history(g.r.choice([8, 14]), p_read=0.3), i % 2, {"io": True, "symlink": True})
+        # batches of several hundred points in one call (list / iterator); contents read back from the file decide
+        for i in range(4 if thorough else 2):
+            g = gen.Gen(rng.randrange(1 << 30), handles=0.0)
+            n1 = 510 + 13 * i
+            ops = [{"op": "insert_multiple", "ps": [g.point(t=min(gen.NT - 2, k * gen.NT // n1)) for k in range(n1)], "m": concretise.NONE, "bad": 0},
+                   {"op": "len", "m": concretise.NONE},
+                   {"op": "insert_multiple", "ps": [g.point(t=gen.NT - 1) for k in range(260 + i)], "m": concretise.NONE, "bad": 0},
+                   {"op": "reopen"},
+                   {"op": "len", "m": concretise.NONE}]
+            add(ops, i % 2, {})
         # large files: early-exit reads before appends (file position left mid-file, > 8 KiB)
         for i in range(6 if thorough else 2):
             g = gen.Gen(rng.randrange(1 << 30), focus={"insert": 8, "remove": 1, "update": 1}, handles=0.0)
